@@ -381,6 +381,24 @@ def checkNativeCall (kind name : String) (args : List Value) : M Unit := do
 
 def maxFrames : Nat := 255
 
+/-- natives of `nativeSig` declared `.with_stack()` (`NativeEnvironment::Normal`), other than the `str` of lists, maps and
+    tuples (those are accounted for in `strOf`): `call_native` runs them under a stub frame that counts toward the frame
+    limit like any other frame (tied to the regenerated table by `C01_layref_stack_natives` in `Props/C01.lean`) -/
+def nativeUsesStack : String → String → Bool
+  | "", "print" | "", "assertEq" => true
+  | "List", "[]" | "List", "[]=" | "Map", "[]" | "String", "[]" | "Tuple", "[]" => true
+  | _, _ => false
+
+/-- `call_native`, arm `NativeEnvironment::Normal`: at the frame limit the call raises `Stack overflow.` instead of
+    pushing the stub frame; otherwise the body runs one frame deeper -/
+def withStubFrame {α} (body : M α) : M α := do
+  let st ← getSt
+  if st.depth + 1 ≥ maxFrames then raise "RuntimeError" "Stack overflow."
+  modifySt fun st => { st with depth := st.depth + 1 }
+  fun st =>
+    match body st with
+    | (st, r) => ({ st with depth := st.depth - 1 }, r)
+
 mutual
 
   /-- the `str()` protocol as used by `print`, interpolation and the collection printers -/
@@ -393,9 +411,10 @@ mutual
     | .str s => return s
     | .ref id =>
       match ← getObj id with
-      | .list items => return "[" ++ ", ".intercalate (← items.toList.mapM quoted) ++ "]"
-      | .tuple items => return "(" ++ ", ".intercalate (← items.toList.mapM quoted) ++ ")"
-      | .map entries =>
+      -- `List.str` / `Tuple.str` / `Map.str` are stack-using natives: one stub frame per level of nesting
+      | .list items => withStubFrame do return "[" ++ ", ".intercalate (← items.toList.mapM quoted) ++ "]"
+      | .tuple items => withStubFrame do return "(" ++ ", ".intercalate (← items.toList.mapM quoted) ++ ")"
+      | .map entries => withStubFrame do
         if entries.isEmpty then return "{}"
         else
           let parts ← entries.toList.mapM fun (k, v) => do return (← quoted k) ++ ": " ++ (← quoted v)
@@ -522,8 +541,13 @@ mutual
       match body st with
       | (st, r) => (restore st).1 |> fun st => (st, r)
 
+  /-- `call_native`: the signature check, then (stack-using natives) the frame limit and the stub frame, then the body -/
   partial def callNative (kind name : String) (recv : Value) (args : List Value) : M Value := do
     checkNativeCall kind name args
+    if nativeUsesStack kind name then withStubFrame (nativeBody kind name recv args)
+    else nativeBody kind name recv args
+
+  partial def nativeBody (kind name : String) (recv : Value) (args : List Value) : M Value := do
     let st ← getSt
     match kind, name, recv, args with
     | "", "print", _, [] => unsupported "print() without arguments (D22)"
